@@ -58,6 +58,16 @@ def sid_to_dict(sid: str, _type: Optional[str] = None) -> Tuple[str, dict] | Tup
     if not data:
         return None, None
 
+    # The sid must be the canonical rendering of its data: the regex "$" also accepts a trailing newline.
+    if r.format_one(data, template) != sid:
+        if _type:
+            return None, None
+        # the first matching template was too lenient, a later one may render the sid exactly.
+        for template, data in r.resolve_all(sid).items():
+            if r.format_one(data, template) == sid:
+                return template, data
+        return None, None
+
     return template, data
 
 
